@@ -166,3 +166,46 @@ func flattenPipeOp(c *ssa.Call) []ssa.Value {
 	}
 	return out
 }
+
+// P9 (C14): a subscribe function or callback that blocks on Subscription.Wait() must have made the awaited subscription
+// releasable by the downstream before it waits (registered with the destination), because the teardown it returns does not
+// exist yet while it is blocked: otherwise a downstream that terminates early cannot cancel the attempt, and the Subscribe
+// call never returns.
+func (pc *pCtx) p9BlockingWaits(s *pSite) {
+	props := []string{"C14"}
+	n := 0
+	for _, fn := range s.Closures {
+		if s.inTeardown(fn) {
+			continue
+		}
+		for _, b := range fn.Blocks {
+			for _, ins := range b.Instrs {
+				call, ok := ins.(*ssa.Call)
+				if !ok || !call.Common().IsInvoke() || call.Common().Method.Name() != "Wait" || len(call.Common().Args) != 0 {
+					continue
+				}
+				if !hasMethod(call.Common().Value.Type(), "Unsubscribe") {
+					continue
+				}
+				n++
+				// registered with the destination beforehand?
+				registered := false
+				for _, b2 := range fn.Blocks {
+					for _, i2 := range b2.Instrs {
+						c2, ok := i2.(*ssa.Call)
+						if !ok || !c2.Common().IsInvoke() {
+							continue
+						}
+						m := c2.Common().Method.Name()
+						if (m == "Add" || m == "AddUnsubscribable") && s.isDest(stripLoad(c2.Common().Value)) && precedes(c2, call) {
+							registered = true
+						}
+					}
+				}
+				pc.add(props, fmt.Sprintf("P9/%s/wait#%d-can-be-cancelled-by-the-downstream", s.Name, n),
+					"a subscription awaited inside the subscribe function is registered with the destination before the wait, so that downstream termination releases it and the blocked Subscribe returns", registered,
+					"the awaited subscription is only known to the teardown the subscribe function returns after the wait", pc.pos(call.Pos()))
+			}
+		}
+	}
+}
